@@ -151,11 +151,37 @@ impl Data {
     }
 }
 
+/// the value type a template works on: s string, l list, t set, h hash, z sorted set, - any
+fn family(t: &str) -> char {
+    let w = t.split(' ').next().unwrap_or("").to_ascii_uppercase();
+    match w.as_str() {
+        "GET" | "SET" | "SETNX" | "APPEND" | "STRLEN" | "GETRANGE" | "SETRANGE" | "GETEX" | "GETDEL" | "INCR" | "DECR" | "INCRBY" | "DECRBY" | "SETEX" | "PSETEX" | "MGET" | "MSET" | "MSETNX" => 's',
+        "LPUSH" | "RPUSH" | "LPOP" | "RPOP" | "LLEN" | "LINDEX" | "LRANGE" | "LSET" | "LTRIM" | "RPOPLPUSH" | "LMOVE" | "SORT" => 'l',
+        "SADD" | "SREM" | "SMEMBERS" | "SISMEMBER" | "SCARD" => 't',
+        x if x.starts_with('H') => 'h',
+        x if x.starts_with('Z') => 'z',
+        _ => '-',
+    }
+}
+
+/// every key of a session has a HOME type: two commands in three that name it are of that family, so
+/// that most commands find a value of their own type (and the rest exercise WRONGTYPE / type changes)
+fn home(k: &[u8], salt: u64) -> char {
+    let h = k.iter().fold(salt, |a, b| a.wrapping_mul(131).wrapping_add(*b as u64));
+    ['s', 'l', 't', 'h', 'z', 's'][(h % 6) as usize]
+}
+
 /// a data command inside the conformant, deterministic fragment (see c03m7::admissible)
-fn gen_data(rng: &mut Rng, pool: &[&str], shards: usize, single: bool) -> Data {
+fn gen_data_salted(rng: &mut Rng, pool: &[&str], shards: usize, single: bool, salt: Option<u64>) -> Data {
     loop {
         let t = *rng.pick(TEMPLATES);
         let (f, text) = fill(rng, t, pool);
+        if let Some(salt) = salt {
+            let fam = family(t);
+            if fam != '-' && f.len() > 1 && home(&f[1], salt) != fam && !rng.chance(1, 3) {
+                continue;
+            }
+        }
         let Some(cmd) = parse_frame(&f) else { continue };
         if !crate::c03m7::admissible(&cmd) || matches!(cmd, Command::SPop(..) | Command::RandomKey) {
             continue;
@@ -561,9 +587,10 @@ async fn conn_session(out: &mut Out, rng: &mut Rng, shards: usize) {
     let theirs: Vec<&str> = mine[n_mine..].to_vec();
     mine.truncate(n_mine);
     let polite = rng.chance(1, 3); // the other clients keep to their own keys
+    let salt = Some(rng.next());
     // populate
     for _ in 0..rng.range(2, 7) {
-        let d = gen_data(rng, &all, shards, false);
+        let d = gen_data_salted(rng, &all, shards, false, salt);
         w.foreign(out, &d).await;
     }
     let steps = rng.range(8, 26);
@@ -573,14 +600,14 @@ async fn conn_session(out: &mut Out, rng: &mut Rng, shards: usize) {
         if !w.in_multi {
             match rng.below(16) {
                 0..=3 => {
-                    let d = gen_data(rng, &all, shards, false);
+                    let d = gen_data_salted(rng, &all, shards, false, salt);
                     let r = to_resp(&w.c1.call(&d.frame).await);
                     w.twin.execute(&d.cmd).await;
                     w.text.push(d.text());
                     out.op(format!("M C CMD {}", d.line), data_reply(&d.cmd, &r));
                 }
                 4..=6 => {
-                    let d = gen_data(rng, if polite { &theirs } else { &all }, shards, false);
+                    let d = gen_data_salted(rng, if polite { &theirs } else { &all }, shards, false, salt);
                     w.foreign(out, &d).await;
                 }
                 7..=9 => {
@@ -605,7 +632,7 @@ async fn conn_session(out: &mut Out, rng: &mut Rng, shards: usize) {
                 }
                 11 => {
                     // a write of the other client to a key the modelled client works on
-                    let d = gen_data(rng, &mine, shards, false);
+                    let d = gen_data_salted(rng, &mine, shards, false, salt);
                     w.foreign(out, &d).await;
                 }
                 12 if !w.watched.is_empty() && rng.chance(1, 3) => {
@@ -635,7 +662,7 @@ async fn conn_session(out: &mut Out, rng: &mut Rng, shards: usize) {
             }
             match choice {
                 0..=8 => {
-                    let d = gen_data(rng, &mine, shards, body_single);
+                    let d = gen_data_salted(rng, &mine, shards, body_single, salt);
                     let r = w.c1.call(&d.frame).await;
                     w.text.push(d.text());
                     out.op(format!("M C CMD {}", d.line), show(&r, false));
@@ -644,7 +671,7 @@ async fn conn_session(out: &mut Out, rng: &mut Rng, shards: usize) {
                     }
                 }
                 9..=10 => {
-                    let d = gen_data(rng, if polite { &theirs } else { &all }, shards, false);
+                    let d = gen_data_salted(rng, if polite { &theirs } else { &all }, shards, false, salt);
                     w.foreign(out, &d).await;
                 }
                 11 => {
@@ -699,7 +726,7 @@ async fn conn_session(out: &mut Out, rng: &mut Rng, shards: usize) {
                         let mut sched: Vec<Vec<Data>> = vec![vec![]];
                         for is_access in real {
                             let pool: &[&str] = if polite { &theirs } else if rng.chance(1, 3) { &mine } else { &all };
-                            sched.push(if is_access && rng.chance(1, 2) { vec![gen_data(rng, pool, shards, true)] } else { vec![] });
+                            sched.push(if is_access && rng.chance(1, 2) { vec![gen_data_salted(rng, pool, shards, true, salt)] } else { vec![] });
                         }
                         w.exec(out, sched).await;
                     } else {
